@@ -43,8 +43,8 @@ Max2(a, b) == IF a > b THEN a ELSE b
 Conc == {"str", "int", "impl", "msa", "nmsa", "rec"}     \* nmsa: a DEFINED type whose underlying type is msa (map[string]any); rec: a struct, only used with field mappings
 Ifc == {"iface", "any"}
 Ty == Conc \cup Ifc
-Dyn == {"str", "int", "impl", "impl2", "msa", "nmsa", "rec"}
-Implements(d, i) == i = "any" \/ (i = "iface" /\ d \in {"impl", "impl2", "iface"})
+Dyn == {"str", "int", "impl", "impl2", "msa", "nmsa", "rec", "nil"}      \* nil: the untyped nil an interface-typed producer may return
+Implements(d, i) == i = "any" \/ (i = "iface" /\ d \in {"impl", "impl2", "iface", "nil"})   \* nil is a legal value of every interface type
 \* Go: is a value of static type o assignable to a parameter of type i -- must (always), may (needs a check of the dynamic value), mustnot
 Assign(o, i) == IF o = i THEN "must"
                 ELSE IF i \in Ifc /\ Implements(o, i) THEN "must"
@@ -53,6 +53,10 @@ Assign(o, i) == IF o = i THEN "must"
 \* what Go's run time accepts: a value of dynamic type d where static type t is declared
 DynOK(d, t) == IF t \in Conc THEN d = t ELSE Implements(d, t)
 DynOf(t) == {d \in Dyn : DynOK(d, t)}
+\* untyped nil: it is a value of no concrete type (a type assertion to any concrete type fails), so a run-time check must refuse it
+\* for a non-nillable concrete target; for map targets Go's assignability of the nil literal leaves room, and nothing is demanded
+SurelyNotAssignable(d, t) == IF d = "nil" THEN t \in {"str", "int", "impl", "rec"} ELSE ~DynOK(d, t)
+MayBeRefused(d, t) == d = "nil" \/ ~DynOK(d, t)
 
 --------------------------------------------------------------------------------
 (* Calls.  Every op is a record with the same fields (unused ones "" / <<>>) *)
@@ -205,8 +209,12 @@ DeliveredAtOnce(hdr, ops, I, n) ==
   LET F == FlowSet(ops, I) IN
   {InT(hdr, ops, I, c[2]) : c \in {y \in F : y[1] = n /\ (y[2] = END \/ y[2] \in TypedKeys(ops, I))}}
   \cup {ops[j].t : j \in {y \in BrIdx(ops, I) : ops[y].a = n}}
-Undeliverable(hdr, ops, I, e) == \E m \in Emissions(e) : \E t \in DeliveredAtOnce(hdr, ops, I, m[1]) : ~DynOK(m[2], t)
-CheckJustified(hdr, ops, I, e) == \E m \in Emissions(e) : \E t \in MaybeChecked(hdr, ops, I, m[1]) \ {"nil"} : ~DynOK(m[2], t)
+Undeliverable(hdr, ops, I, e) == \E m \in Emissions(e) : \E t \in DeliveredAtOnce(hdr, ops, I, m[1]) : SurelyNotAssignable(m[2], t)
+CheckJustified(hdr, ops, I, e) == \E m \in Emissions(e) : \E t \in MaybeChecked(hdr, ops, I, m[1]) \ {"nil"} : MayBeRefused(m[2], t)
+\* a nil handed over a connection that needs NO run-time check (any -> any, iface -> any ...) is outside the statement: the receiving
+\* wrapper's own type assertion fails on it in the unchanged library; a panic of such a run is not judged
+NilOverUncheckedConnection(hdr, ops, I, e) ==
+  \E m \in Emissions(e) : m[2] = "nil" /\ \E t \in Delivered(hdr, ops, I, m[1]) : Assign(OutT(hdr, ops, I, m[1]), t) = "must"
 
 --------------------------------------------------------------------------------
 (* Outcome of a call: "ok" | "E" an error | "S" the very error value of the first failed Add* | "C" ErrGraphCompiled |    *)
@@ -274,7 +282,8 @@ RunWhy(S, e) ==
   ELSE IF \E x \in Range(e.br) : x.j \notin BrIdx(ops, I) \/ ~DynOK(x.got, ops[x.j].t) THEN "wrong-type-delivered-to-branch"
   ELSE IF e.res \notin {"result", "typecheck", "error", "panic", "panicerr"} THEN "unknown-run-outcome"
   ELSE IF ~C07On THEN ""
-  ELSE IF e.res \in {"panic", "panicerr"} THEN "run-panic"
+  ELSE IF e.res \in {"panic", "panicerr"} /\ ~NilOverUncheckedConnection(S.hdr, ops, I, e) THEN "run-panic"
+  ELSE IF e.res \in {"panic", "panicerr"} THEN ""
   ELSE IF e.res = "result" /\ ~DynOK(e.rd, S.hdr.go) THEN "wrong-type-result"
   ELSE IF e.res = "result" /\ e.mode = "invoke" /\ Undeliverable(S.hdr, ops, I, e) THEN "mismatch-not-reported"
   ELSE IF e.res = "typecheck" /\ ~CheckJustified(S.hdr, ops, I, e) THEN "typecheck-error-without-mismatch"
